@@ -647,6 +647,16 @@ func runC09(r *run) {
 			a = append(a, "-", "-", hx(want))
 			emit(caseT{"render", a})
 		}
+		// ifchanged reached again while its own body renders (a macro that calls itself): every
+		// activation compares with what was stored when it started
+		for _, c := range [][2]string{
+			{"{% macro m(n) %}{% ifchanged %}{% if n %}{{ m(n - 1) }}{% else %}x{% endif %}{% endifchanged %}{% endmacro %}[{{ m(1) }}][{{ m(2) }}]", "[x][]"},
+			{"{% macro r(n) %}{% ifchanged n %}<{{ n }}{% if n %}{{ r(n - 1) }}{% endif %}>{% else %}={% endifchanged %}{% endmacro %}{{ r(2) }}|{{ r(0) }}", "<2<1<0>>>|="},
+		} {
+			a := w.args("{% autoescape off %}"+c[0]+"{% endautoescape %}", ctx)
+			a = append(a, "-", "-", hx(c[1]))
+			emit(caseT{"render", a})
+		}
 		// Go-typed context data: loops in another order leave the caller's slices alone (also for the
 		// next loop and the next execution); integers of different Go kinds compare by value, and
 		// ifequal / ifnotequal stay complementary on them
